@@ -189,7 +189,7 @@ func TestC13(t *testing.T) {
 		}
 		c13Fidelity(t, st, n)
 	})
-	rapid.Check(t, func(t *rapid.T) {
+	checkCases(t, st, func(t *rapid.T) {
 		runHistoryCase(t, "C13", c13Profile, func(r *kvh.Runner) bool {
 			return r.F.C13Rot > 0 || r.F.C13Thr > 0 || r.F.C13SyncBatch > 0
 		})
